@@ -306,6 +306,14 @@ func (x *Exec) static(site ssa.Instruction, fn *ssa.Function, bindings []Value, 
 	if fn.Synthetic != "" && fn.Blocks != nil && (strings.HasPrefix(fn.Synthetic, "wrapper") || strings.HasPrefix(fn.Synthetic, "bound") || strings.HasPrefix(fn.Synthetic, "thunk")) {
 		return x.inline(site, fn, bindings, args, st)
 	}
+	if x.u.concurrent && bindings == nil {
+		// concurrent mode: prefer the callee's second contract (typically "writes nothing when the
+		// shared state is already built"); its requires become obligations here
+		pk, key := fnKey(fn)
+		if ac := eng.cs.Also[pk+"::"+key]; ac != nil {
+			return x.modularCall(site, fn, ac, args, st)
+		}
+	}
 	if fc := eng.contractFor(fn); fc != nil && (len(fc.Ensures) > 0 || len(fc.Requires) > 0 || fc.HasMod || fc.Assumed || fc.Pure) && bindings == nil {
 		if fc.Opts["inline"] == "" {
 			return x.modularCall(site, fn, fc, args, st)
@@ -796,6 +804,29 @@ func (x *Exec) modularCall(site ssa.Instruction, fn *ssa.Function, fc *FuncContr
 			x.obl(callName+" / frame["+it.text+"]", "frame", "callee's modifies "+it.text+" within caller's", st, goal)
 		}
 	}
+	// concurrent mode: a callee that may write existing memory is either itself verified in
+	// concurrent mode, or runs while this call holds a mutex exclusively
+	if !x.pure && x.u.concurrent && (callee.any || len(callee.items) > 0) && fc.Opts["concurrent"] != "yes" && !fc.Assumed {
+		x.obl(callName+" / guard[unsynchronised callee]", "lock", "a callee that writes shared memory runs under an exclusive lock or is itself verified in concurrent mode", st, x.someExclusiveLock(st))
+	}
+	// shared-mode lock discipline: a callee that may write existing memory must not run while a
+	// mutex is held in shared mode only
+	if !x.pure && (callee.any || len(callee.items) > 0) {
+		for k := range x.u.lockKeys {
+			held, ok := st.cells[k].(Term)
+			if !ok || held.S == "0" || held.S == "2" {
+				continue
+			}
+			for _, it := range callee.items {
+				p := u.W.Fresh("fp", SPtr)
+				x.obl(callName+" / guard[shared-mode write]", "lock", "while a mutex is held in shared mode the callee writes only memory allocated by this call", st,
+					Implies(And(Eq(held, IntLit(1)), it.pred(p)), Ge(PBase(p), x.alloc0)))
+			}
+			if callee.any {
+				x.obl(callName+" / guard[shared-mode write]", "lock", "while a mutex is held in shared mode the callee writes only memory allocated by this call", st, Not(Eq(held, IntLit(1))))
+			}
+		}
+	}
 	// post state
 	res := fn.Signature.Results()
 	names := resultNames(fn.Signature)
@@ -923,29 +954,33 @@ func init() {
 		"(time.Time).Before": func(x *Exec, site ssa.Instruction, fn *ssa.Function, args []Value, st *State) Value {
 			return Lt(x.timeNs(x.term(args[0])), x.timeNs(x.term(args[1])))
 		},
-		"strings.Map":                   stringsMap,
+		"strings.Map": stringsMap,
 		"sync/atomic.AddInt64": func(x *Exec, site ssa.Instruction, fn *ssa.Function, args []Value, st *State) Value {
 			l := x.locOf(args[0], fn.Signature.Params().At(0).Type(), st)
 			nv := Add(x.term(x.load(l, st)), x.term(args[1]))
+			x.atomicOp = true
 			x.store(l, nv, st)
+			x.atomicOp = false
 			return nv
 		},
 		"sync/atomic.LoadInt64": func(x *Exec, site ssa.Instruction, fn *ssa.Function, args []Value, st *State) Value {
 			return x.load(x.locOf(args[0], fn.Signature.Params().At(0).Type(), st), st)
 		},
 		"sync/atomic.StoreInt64": func(x *Exec, site ssa.Instruction, fn *ssa.Function, args []Value, st *State) Value {
+			x.atomicOp = true
 			x.store(x.locOf(args[0], fn.Signature.Params().At(0).Type(), st), args[1], st)
+			x.atomicOp = false
 			return nil
 		},
-		"encoding/json.Unmarshal":       unmarshalLike(1),
-		"encoding/binary.Read":          unmarshalLike(2),
-		"gopkg.in/yaml.v3.Unmarshal":    unmarshalLike(1),
-		"(*sync.RWMutex).Lock":    lockOp("W", true),
-		"(*sync.RWMutex).Unlock":  lockOp("W", false),
-		"(*sync.RWMutex).RLock":   lockOp("R", true),
-		"(*sync.RWMutex).RUnlock": lockOp("R", false),
-		"(*sync.Mutex).Lock":      lockOp("W", true),
-		"(*sync.Mutex).Unlock":    lockOp("W", false),
+		"encoding/json.Unmarshal":    unmarshalLike(1),
+		"encoding/binary.Read":       unmarshalLike(2),
+		"gopkg.in/yaml.v3.Unmarshal": unmarshalLike(1),
+		"(*sync.RWMutex).Lock":       lockOp("W", true),
+		"(*sync.RWMutex).Unlock":     lockOp("W", false),
+		"(*sync.RWMutex).RLock":      lockOp("R", true),
+		"(*sync.RWMutex).RUnlock":    lockOp("R", false),
+		"(*sync.Mutex).Lock":         lockOp("W", true),
+		"(*sync.Mutex).Unlock":       lockOp("W", false),
 	}
 }
 
@@ -1000,7 +1035,6 @@ func lockOp(mode string, acquire bool) intrinsic {
 		return nil
 	}
 }
-
 
 // permuteSlice: the slice is permuted in place (frame obligation, fresh heap version related to
 // the old one by a permutation of the slice's indices). Returns heap name, new heap, length.
